@@ -564,12 +564,34 @@ def NOperand.set : NOperand → Triple → Prop
   | .simple ops => SSpec.run (fun _ => False) ops
 
 /-- the binary operators reading their operands through the nested models (iteration = the walks, `in` = the probes) -/
-def Statement_binop_nested : Prop :=
+def Statement_binop_nested_flat : Prop :=
   ∀ (a b : NOperand) (r : Nat),
     (∀ t c, abs (a.view.union b.view r) t c ↔ ((a.set t ∨ b.set t) ∧ c = r)) ∧
     (∀ t c, abs (a.view.diff b.view r) t c ↔ ((a.set t ∧ ¬ b.set t) ∧ c = r)) ∧
     (∀ t c, abs (a.view.inter b.view r) t c ↔ ((a.set t ∧ b.set t) ∧ c = r)) ∧
     (∀ t c, abs (a.view.xor b.view r) t c ↔ (((a.set t ∧ ¬ b.set t) ∨ (b.set t ∧ ¬ a.set t)) ∧ c = r))
+
+/-- what is demanded of the NEW graph `n` (identifier `r`) an operator returns, `R` = the set-theoretic result -/
+structure ResultOk (n : NMem) (r : Nat) (R : Triple → Prop) : Prop where
+  /-- its nested dictionaries have unique keys at every level -/
+  wf : NWF n
+  no_raise : n.cx.err = false ∧ n.triplesRaises allPat = false
+  /-- it holds exactly `R`, under its own identifier, and nothing else -/
+  holds : ∀ t c, abs n.toMem t c ↔ (R t ∧ c = r)
+  /-- `list(result)` -/
+  iter : (n.graph r).Nodup ∧ ∀ t, t ∈ n.graph r ↔ R t
+  /-- `t in result` -/
+  contains : ∀ t, n.contains t r = true ↔ R t
+
+/-- (round h) the binary operators with operands read through the nested models AND the result built as a nested
+    model: `retval = Graph()` is a fresh `Memory` over nested dictionaries filled by `retval.add(x)` (`NMem.ofList`);
+    `a ^ b` builds the two differences as graphs of their own and adds their iterations -/
+def Statement_binop_nested : Prop :=
+  ∀ (a b : NOperand) (r : Nat),
+    ResultOk (a.view.nunion b.view r) r (fun t => a.set t ∨ b.set t) ∧
+    ResultOk (a.view.ndiff b.view r) r (fun t => a.set t ∧ ¬ b.set t) ∧
+    ResultOk (a.view.ninter b.view r) r (fun t => a.set t ∧ b.set t) ∧
+    ResultOk (a.view.nxor b.view r) r (fun t => (a.set t ∧ ¬ b.set t) ∨ (b.set t ∧ ¬ a.set t))
 
 theorem stSim_of_equiv {m m' : Mem} {S : QK} (h : StSim m S) (e : MEquiv m m') (n1 : m'.spo.Nodup)
     (n2 : m'.pos.Nodup) (n3 : m'.osp.Nodup) : StSim m' S := by
@@ -738,7 +760,7 @@ theorem noperand_ok (a : NOperand) : a.view.Coherent ∧ ∀ t, t ∈ a.view.xs 
     rw [mem_ofSimple hI]
     exact h t
 
-theorem binop_nested : Statement_binop_nested := by
+theorem binop_nested_flat : Statement_binop_nested_flat := by
   intro a b r
   obtain ⟨ha, hsa⟩ := noperand_ok a
   obtain ⟨hb, hsb⟩ := noperand_ok b
@@ -746,6 +768,36 @@ theorem binop_nested : Statement_binop_nested := by
   simp only [abs_eq_InG]
   simp only [hsa, hsb] at h
   exact ⟨h.1, h.2.1, h.2.2.1, h.2.2.2.1⟩
+
+theorem resultOk_of {n : NMem} {m : Mem} {r : Nat} {R : Triple → Prop} (e : MEquiv m n.toMem) (hw : NWF n)
+    (hI : Inv m) (hm : ∀ t c, InG m t c ↔ (R t ∧ c = r)) : ResultOk n r R := by
+  obtain ⟨n1, n2, n3⟩ := nodup_toMem hw
+  have hI' : Inv n.toMem := inv_of_equiv hI e n1 n2 n3
+  have hq : ∀ t c, InG n.toMem t c ↔ (R t ∧ c = r) := fun t c => (InG_of_equiv e t c).symm.trans (hm t c)
+  refine ⟨hw, ⟨hI'.err, rfl⟩, hq, ⟨nodup_graph hI' r, fun t => ?_⟩, fun t => ?_⟩
+  · show t ∈ n.toMem.graph r ↔ _
+    rw [mem_graph hI', hq]; simp
+  · rw [ncontains_eq hw, contains_iff hI', hq]; simp
+
+theorem binop_nested : Statement_binop_nested := by
+  intro a b r
+  obtain ⟨ha, hsa⟩ := noperand_ok a
+  obtain ⟨hb, hsb⟩ := noperand_ok b
+  have h := view_ops_spec a.view b.view ha hb r
+  simp only [hsa, hsb] at h
+  obtain ⟨h1, h2, h3, h4, i1, i2, i3, i4⟩ := h
+  refine ⟨?_, ?_, ?_, ?_⟩
+  · obtain ⟨e, hw⟩ := ofList_equiv r (a.view.xs ++ b.view.xs)
+    exact resultOk_of e hw i1 h1
+  · obtain ⟨e, hw⟩ := ofList_equiv r (a.view.xs.filter (fun x => !b.view.has x))
+    exact resultOk_of e hw i2 h2
+  · obtain ⟨e, hw⟩ := ofList_equiv r (b.view.xs.filter a.view.has)
+    exact resultOk_of e hw i3 h3
+  · have hx : a.view.nxor b.view r = NMem.ofList r ((gDiff a.view.xs b.view.has r).graph r ++ (gDiff b.view.xs a.view.has r).graph r) :=
+      nXor_eq _ _ _ _ r
+    rw [hx]
+    obtain ⟨e, hw⟩ := ofList_equiv r ((gDiff a.view.xs b.view.has r).graph r ++ (gDiff b.view.xs a.view.has r).graph r)
+    exact resultOk_of e hw i4 h4
 
 /-! ### Round g: the generator as it is — level-by-level key copies (`NGen`, `NModel.lean`)
 
@@ -827,6 +879,30 @@ theorem triples_choices : Statement_triples_choices := by
       have e2 := ((slot_matches sl a b y t).1 (((hO.triples _ ctx).2 t).1 hy).2).2
       exact hxy (e1.symm.trans e2)
 
+/-- (round h) the whole dispatch of `Store.triples_choices`: `ValueError` exactly when two or more positions hold a
+    list (nothing is read then); with exactly one list it is `triplesChoices` for that position (theorem
+    `triples_choices` gives its meaning); with no list at all it yields NOTHING (none of the `isinstance` branches is
+    taken — the code as it is, not `triples(pattern)`) -/
+def Statement_triples_choices_dispatch : Prop :=
+  ∀ (n : NMem) (s p o : Arg) (req : Ctx),
+    (n.triplesChoicesG s p o req = none ↔ 2 ≤ s.nLists + p.nLists + o.nLists) ∧
+    (∀ a b l, s = .term a → p = .term b → o = .list l →
+        n.triplesChoicesG s p o req = some (n.triplesChoices .o l a b req)) ∧
+    (∀ l b c, s = .list l → p = .term b → o = .term c →
+        n.triplesChoicesG s p o req = some (n.triplesChoices .s l b c req)) ∧
+    (∀ a l c, s = .term a → p = .list l → o = .term c →
+        n.triplesChoicesG s p o req = some (n.triplesChoices .p l a c req)) ∧
+    (∀ a b c, s = .term a → p = .term b → o = .term c → n.triplesChoicesG s p o req = some [])
+
+theorem triples_choices_dispatch : Statement_triples_choices_dispatch := by
+  intro n s p o req
+  refine ⟨?_, ?_, ?_, ?_, ?_⟩
+  · cases s <;> cases p <;> cases o <;> simp [NMem.triplesChoicesG, Arg.nLists]
+  · rintro a b l rfl rfl rfl; rfl
+  · rintro l b c rfl rfl rfl; rfl
+  · rintro a l c rfl rfl rfl; rfl
+  · rintro a b c rfl rfl rfl; rfl
+
 /-- a schedule on which the concrete generator really walks two levels between mutations: `(1,?,?)` on graph 0;
     `(1,2,4)` is removed before the inner copy `[3,4]` reaches it, `(1,5,6)` is added under a NEW second-level key after
     the outer copy `[2]` was taken (not seen), `(1,2,7)` under the already expanded key (not seen either) -/
@@ -862,6 +938,16 @@ example : (NMem.init.stRun exStOps).ispo = [(1, [(2, [3])]), (4, [(2, [])]), (5,
     (NMem.init.stRun exStOps).iosp = [(3, [(1, [2]), (4, []), (5, [])])] ∧
     (NMem.init.stRun exStOps).drain (none, none, some 3) none = [(1, 2, 3)] ∧
     (NMem.init.stRun exStOps).triplesChoices .s [5, 1, 1] (some 2) none (some 1) = [(1, 2, 3), (1, 2, 3)] := by decide
+
+/-- round h: the new graph of an operator is a nested-dictionary store of its own; two list positions raise -/
+example : ((NOperand.mem exStOps 1).view.nxor (NOperand.simple [.add (1, 2, 3), .add (0, 0, 0)]).view 5).graph 5 = [(0, 0, 0)] ∧
+    ((NOperand.mem exStOps 1).view.nunion (NOperand.simple [.add (1, 2, 3), .add (0, 0, 0)]).view 5).ispo
+      = [(1, [(2, [3])]), (0, [(0, [0])])] ∧
+    (NMem.init.stRun exStOps).triplesChoicesG (.list [1]) (.list []) (.term none) (some 1) = none ∧
+    (NMem.init.stRun exStOps).triplesChoicesG (.term none) (.term (some 2)) (.list [3, 3]) (some 1)
+      = some [(1, 2, 3), (1, 2, 3)] ∧
+    (NMem.init.stRun exStOps).triplesChoicesG (.term none) (.term (some 2)) (.term (some 3)) (some 1) = some [] := by
+  decide
 
 /-- operands on different kinds of store: a graph of a `Memory` after a store-level history and a `SimpleMemory` graph -/
 example : ((Operand.mem exStOps 1).view.xor (Operand.simple [.add (1, 2, 3), .add (9, 9, 9), .remove (none, some 9, none),
